@@ -91,6 +91,23 @@ Fixpoint ser_value (v : tv) : ev :=
 Definition ser_map (m : list (bytes * tv)) : list (bytes * ev) :=
   map (fun kv => (fst kv, ser_value (snd kv))) m.
 
+(* a derived `Serialize` impl (serde_derive: one `serialize_field` per field, in declaration order), or
+   any other impl that hands its entries over in an order of its own, at every level: the tree `v` is
+   read as the call tree of the serializer — TTab = struct / map with the fields in that order *)
+Fixpoint ser_plain (v : tv) : ev :=
+  match v with
+  | TLeaf t => ELeaf t
+  | TArr l => EArr (map ser_plain l)
+  | TTab m =>
+    EInl ((fix go (m : list (bytes * tv)) : list (bytes * ev) :=
+             match m with
+             | [] => []
+             | (k, x) :: r => (k, ser_plain x) :: go r
+             end) m)
+  end.
+Definition ser_root_plain (m : list (bytes * tv)) : list (bytes * ev) :=
+  match ser_plain (TTab m) with EInl em => em | _ => [] end.
+
 (* what `value.serialize(Serializer)` hands to write_document, for the two root types *)
 Definition ser_root_value (m : list (bytes * tv)) : list (bytes * ev) :=
   match ser_value (TTab m) with EInl em => em | _ => [] end.
@@ -221,6 +238,10 @@ Definition emit_value_doc (ml : bool) (m : list (bytes * tv)) : list section :=
 (* toml::to_string(&m) for m : toml::Table = Display for Table *)
 Definition emit_table_doc (ml : bool) (m : list (bytes * tv)) : list section :=
   emit_root ml (ser_map m).
+
+(* toml::to_string(&s) for a struct / map s whose impl is ser_plain *)
+Definition emit_struct_doc (ml : bool) (m : list (bytes * tv)) : list section :=
+  emit_root ml (ser_root_plain m).
 
 (* Display for Value: ValueSerializer + write_value, one inline value, no DocumentFormatter *)
 Definition display_value (v : tv) : iv := fmt_value false (ser_value v).
